@@ -129,3 +129,15 @@ func init() {
 		NotCovered: "the numeric result on concrete quadruples; symmetry under edge reversal on concrete inputs.",
 	}
 }
+
+func init() {
+	Properties["C04"] = PropertySpec{
+		Rules: []string{"R-PARITY", "R-INITORDER", "R-INIT", "R-RANGE", "R-CROSSENUM"},
+		Explanation: "Point containment as a crossing parity, reduced to the shape all six evaluators must share (reference bit, toggle by an exact crossing test, accumulator returned, crosser restarted on gaps, every edge visited, vertex shortcut only on a true endpoint match), " +
+			"the initialisation order the pre-checks rely on, a non-nil index on every creation path, and inclusive cell-range location of the query point.",
+		NotCovered: "that the interior tracker's containsCenter bits are right (they depend on runtime crossings); the tiling clause on concrete cells.",
+	}
+	p := Properties["C06"]
+	p.Rules = append(p.Rules, "R-PARITY")
+	Properties["C06"] = p
+}
